@@ -14,6 +14,7 @@ EXPLANATION = (
     "Ok only through the equal edge of a comparison between the CRC computed now and the stored one. V5: the checksum patched into "
     "the header at reservation time is computed after the offset was patched. Decides this audit structure, not byte-exact round "
     "trips or the detection probability of CRC32C.")
+EXPLANATION += (" " + 'V7 in the sequential scan the data read is only reached after the cursor was advanced by the header size and by meta_size() (layout header, meta, data).')
 ASSUMPTIONS = ["bincode legacy fixed-int encoding (checked under C17.Z1): u64=8, u32=4, u8=1 bytes"]
 
 AUDIT = 'record::record::Header::data_checksum_audit'
@@ -311,11 +312,63 @@ def v6(ctx, rid):
         raise core.AnchorLost('two-buffer write site')
 
 
+def cursor_advances(prog, f, field='current_offset'):
+    """blocks that add something to the scan cursor: {block: set of what is added ('field:<name>' / 'call:<name>')}"""
+    out = {}
+    for i, b in enumerate(f.blocks):
+        if b['c'] or i not in f.reachable():
+            continue
+        for s in b['s']:
+            if s['k'] != 'a' or core.place_fields(s['d'])[-1:] != [field]:
+                continue
+            what = set()
+            for o in core.rvalue_operands(s['r']):
+                for (k, v) in core.scalar_leaves(prog, f, o, depth=0):
+                    if k == 'field' and v != field:
+                        what.add('field:%s' % v)
+                    elif k == 'call':
+                        what.add('call:%s' % v)
+            if what:
+                out.setdefault(i, set()).update(what)
+    return out
+
+
+def v7(ctx, rid):
+    """the sequential scan reads a record's data where the writer put it: the data read is only reached after the cursor was
+    advanced by the header size and by the header's meta_size (layout: header, meta, data - Header::data_offset of the writer)"""
+    prog = ctx.prog
+    n = 0
+    for f in prog.fns.values():
+        if not f.id.endswith('RawRecords::read_current_record::{closure#0}'):
+            continue
+        adv = cursor_advances(prog, f)
+        reads = [c for c in f.calls if c.name.startswith('read_exact_at') and c.path.startswith('io::') and c.bb in f.reachable()]
+        val = [c for c in f.calls if c.name == 'validate' and 'Header' in c.path]
+        data_reads = [c for c in reads if val and c.bb in f.reach_from(f.after(val[0].bb))]
+        for c in data_reads:
+            n += 1
+            key = 'data-read-at-data-offset|%s' % prog.fns[f.id].root
+            hdr = [b for b, w in adv.items() if 'field:record_header_size' in w or 'call:serialized_size' in w]
+            meta = [b for b, w in adv.items() if 'call:meta_size' in w]
+            miss = []
+            if not hdr or c.bb in f.reach_from([0], avoid_exit=hdr):
+                miss.append('the header size')
+            if not meta or c.bb in f.reach_from([0], avoid_exit=meta):
+                miss.append('meta_size()')
+            if miss:
+                ctx.bad(rid, key, c.where(), 'the record data is read at a cursor that was not advanced by %s on every path: the bytes read are not the record\'s data (with checksum validation every record with meta fails the audit and a valid blob is reported corrupted)' % ' and '.join(miss))
+            else:
+                ctx.ok(rid, key, c.where(), 'cursor advanced by header size and meta_size before the data read')
+    if n < 1:
+        raise core.AnchorLost('data read of the sequential scan: %d' % n)
+
+
 RULES = [
     Rule('C05.V1', 'no record data leaves a reading function without an ok data-checksum audit', v1, 4),
     Rule('C05.V2', 'a header deserialised from file bytes is accepted only after magic + header-CRC validation', v2, 3),
     Rule('C05.V3', 'the header patch positions equal the sizes of the trailing fields of record::Header', v3, 3),
     Rule('C05.V4', 'the checksum audits return Ok only on the equal edge of computed vs stored CRC', v4, 2),
     Rule('C05.V6', 'a two-buffer record is written head first: the data buffer follows the successful write of the head', v6, 1),
+    Rule('C05.V7', 'the sequential scan reads record data only after advancing the cursor by header size and meta size', v7, 1),
     Rule('C05.V5', 'the header CRC written at reservation time is computed after the offset was patched', v5, 1),
 ]
